@@ -82,6 +82,7 @@ impl Bits {
         let mut kb = KbAny::new(2, DynLayout::Direct(2), hc(true));
         // and a long-lived Keyboard on the same wire, bit by bit (the route an interrupt handler uses)
         let mut kb_stream = KbAny::new(if trace.cfg.seed2 & 1 == 0 { 2 } else { 1 }, DynLayout::Direct(2), hc(true));
+        let mut queued_ev5: Option<(pc_keyboard::KeyEvent, usize)> = None;
         let mut violation: Option<Violation> = None;
         let mut any_fault = false;
         let mut last_t = 0u64;
@@ -151,7 +152,23 @@ impl Bits {
             let mut kb_early: Option<(usize, Res)> = None;
             for (j, b) in bits.iter().enumerate() {
                 let x = FRes::of_bit(&stream.add_bit(*b));
+                // the main loop gets round to a queued event some bits into a later frame
+                if let Some((ev, lag)) = queued_ev5.take() {
+                    if lag == 0 {
+                        let _ = kb_stream.process_keyevent(ev);
+                        env.cov.api_calls += 1;
+                        env.cov.probe("queued_event_processed_between_two_bits");
+                    } else {
+                        queued_ev5 = Some((ev, lag - 1));
+                    }
+                }
                 let y = Res::of(&kb_stream.add_bit(*b));
+                if let Res::Ev(k, st) = y {
+                    if let Some((old, _)) = queued_ev5.take() {
+                        let _ = kb_stream.process_keyevent(old);
+                    }
+                    queued_ev5 = Some((pc_keyboard::KeyEvent::new(k, st), (i + j) % 10));
+                }
                 env.cov.api_calls += 2;
                 if was_aligned && bits.len() == 11 {
                     if j < 10 {
@@ -722,6 +739,7 @@ impl Scenario for Bits {
         if self.prop == WProp::C05 {
             cov.probe_declare("frame_checked_in_stream");
             cov.probe_declare("frame_checked_via_keyboard_add_bit");
+            cov.probe_declare("queued_event_processed_between_two_bits");
         }
         if self.prop == WProp::C06 {
             cov.probe_declare("clear_with_10_bits_pending");
